@@ -12,6 +12,13 @@ CLAIMS = {
          "to the code by running both on the rule lattice, malformed arguments, multipliers and scheme pairs, compared inside Coq.",
          "Trusted: Coq kernel + vm_compute; hand-written model; harness; floats represented on the 1/8000 grid (NaN/inf/non-dyadic not modelled).",
          "DESIGN.md section 4, C19"),
+ "C02": ("Coq theorems over a Gallina model of the numba cost-table kernel + vm_compute correspondence on whole tables",
+         "Machine-checked: every off-diagonal entry of the model's matrix equals the definition (sums of B/T penalties by pair status), "
+         "mirror consistency, positions vs bucket ids give the same table, and the entries selected by any duplicate-free candidate over the "
+         "universe add up to kemeny_spec; all for unbounded datasets/schemes. The jitted kernel is tied to the model by comparing full "
+         "n x n x 3 tables, id order, position and bucket-id matrices; the library's tables are also checked against the definition itself.",
+         "Trusted: Coq kernel + vm_compute; hand-written model; harness; exact float sums on the 1/8000 grid; unit weights.",
+         "DESIGN.md section 4, C02"),
 }
 NOT_YET = "check not built yet in this phase (planned: DESIGN.md section 4); no claim is made"
 
